@@ -666,6 +666,7 @@ func runC06(c *eng.Ctx) {
 		})
 		c.Check(stored, "the new stream is registered under its name", p.Pos(fn.Pos()), "m.streams[protoStream.Name] = newStream(…)", "AddStream does not register the stream it built under protoStream.Name")
 	}
+	ruleCreatedStreamUsesLoggedConfig(c)
 	// the tombstone mark is only ever set; a tombstoned stream object is never revived in place
 	if tf := p.Field("server", "stream", "tombstone"); tf != nil {
 		n := 0
